@@ -6,6 +6,7 @@ import os
 import signal
 import sys
 import time
+import traceback
 
 
 class CustomError(Exception):
@@ -193,3 +194,56 @@ def _make_runners():
 
 
 RUNNERS = _make_runners()
+
+
+# -- nested start methods: a billiard child that is a parent itself -------------
+
+def _nested_leaf(kind):
+    if kind == 'exit7':
+        sys.exit(7)
+    if kind in ('kill', 'term'):
+        _no_core()
+        time.sleep(120)
+        os._exit(99)
+    return None
+
+
+def nested_parent(inner, conn):
+    """runs in a billiard child: starts children of its own with start method
+    `inner` and reports what it is told about their end"""
+    import billiard
+    import signal as _signal
+    out = []
+    try:
+        ctx = billiard.get_context(inner)
+        for kind in ('return', 'exit7', 'kill', 'term'):
+            g = ctx.Process(target=_nested_leaf, args=(kind,))
+            g.start()
+            if kind in ('kill', 'term'):
+                time.sleep(0.3)
+                os.kill(g.pid, _signal.SIGKILL if kind == 'kill' else _signal.SIGTERM)
+            t0 = time.monotonic()
+            g.join(30)
+            el = time.monotonic() - t0
+            code = g.exitcode
+            alive = g.is_alive()
+            listed = g in billiard.active_children()
+            out.append([kind, code, alive, listed, round(el, 2)])
+            if code is None:
+                try:
+                    os.kill(g.pid, _signal.SIGKILL)
+                except OSError:
+                    pass
+        conn.send(('ok', out))
+    except BaseException:
+        conn.send(('raised', traceback.format_exc()[-1800:], out))
+
+
+def sleeper(ready_path):
+    """an ordinary child with the signal dispositions billiard gave it"""
+    fd = os.open(ready_path, os.O_WRONLY | os.O_CREAT, 0o600)
+    os.write(fd, b'R')
+    os.close(fd)
+    for _ in range(600):
+        time.sleep(0.1)
+    os._exit(98)
